@@ -116,6 +116,19 @@ CallFn(kind, args, env, log) ==
     [] kind = "visited_count" ->
          IF Len(args) # 1 \/ ~IsStr(args[1]) THEN Err(log)
          ELSE Ok(IntV(IF args[1].s \in env.nodes THEN env.visits[args[1].s] ELSE 0), log)
+    \* the numeric built-ins (their contracts for all doubles are property C19's; here: their
+    \* values on the exact window, so that scripts using them stay inside the model)
+    [] kind \in {"floor", "ceil", "round", "inc", "dec", "integer", "decimal"} ->
+         IF Len(args) # 1 \/ ~IsNum(args[1]) THEN Err(log)
+         ELSE IF IsSpecial(args[1]) THEN Oos(log)
+         ELSE LET a == args[1] IN
+             (CASE kind = "floor"   -> Ok(IntV(RFloorI(a)), log)
+                [] kind = "ceil"    -> Ok(IntV(RCeilI(a)), log)
+                [] kind = "round"   -> Ok(IntV(RRoundI(a)), log)
+                [] kind = "inc"     -> Ok(IntV(RFloorI(a) + 1), log)
+                [] kind = "dec"     -> Ok(IntV(RCeilI(a) - 1), log)
+                [] kind = "integer" -> Ok(IntV(RTruncI(a)), log)
+                [] kind = "decimal" -> FromNorm(RSub(a, IntV(RTruncI(a))), log))
     [] kind = "string" ->
          IF Len(args) # 1 \/ args[1].t = "u" THEN Err(log)
          ELSE IF IsSpecial(args[1]) THEN Oos(log) ELSE Ok(Str(Display(args[1])), log)
